@@ -33,21 +33,29 @@ pub fn routings(g: &OGraph, n: usize) -> Vec<Routing> {
     let t1 = *trees.last().unwrap();
     let l = g.num_loops();
     let mut out = vec![Routing { name: "fundamental(tree0)".into(), tree: t0, sig: g.fundamental_signature(t0) }];
-    if n >= 2 {
+    if l >= 3 && n >= 2 {
+        // the same cycles in the opposite order: the sparsity pattern of L (cycles sharing no edge) moves
+        let mut s = g.fundamental_signature(t0);
+        for row in s.iter_mut() {
+            row.reverse();
+        }
+        out.push(Routing { name: "fundamental(tree0), cycles in reverse order".into(), tree: t0, sig: s });
+    }
+    if n >= 2 && out.len() < n {
         let mut s = g.fundamental_signature(t1);
         for row in s.iter_mut() {
             row[0] = -row[0];
         }
         out.push(Routing { name: "fundamental(last tree), cycle 0 reversed".into(), tree: t1, sig: s });
     }
-    if n >= 3 && l >= 2 {
+    if n >= 3 && l >= 2 && out.len() < n {
         let mut s = g.fundamental_signature(t0);
         for row in s.iter_mut() {
             row[0] += row[1];
         }
         out.push(Routing { name: "tree0, k0 -> k0 + k1".into(), tree: t1, sig: s });
     }
-    if n >= 4 && l >= 2 {
+    if n >= 4 && l >= 2 && out.len() < n {
         // k0 -> k0 - k1 on the other tree: where two cycles share an edge one of the two recombinations
         // produces a signature entry of modulus 2
         let mut s = g.fundamental_signature(t1);
